@@ -286,7 +286,7 @@ theorem reserved_rejected_counterexample :
 `render_context`), and as a keyword argument of `render_context` – whatever the state of the `Context` (`fresh` is
 universally quantified: a context that was already rendered into, or the running template's own context, included) -/
 theorem render_entries_reject (reserved keys kw : List Name) (e : Entry) (fresh : Bool) (x : Name) (hr : x ∈ reserved)
-    (h : (x ∈ keys ∧ (fresh = true ∨ (e ≠ .renderContext ∧ e ≠ .defRenderContext))) ∨
+    (h : (x ∈ keys ∧ e ≠ .includeFile ∧ (fresh = true ∨ (e ≠ .renderContext ∧ e ≠ .defRenderContext))) ∨
          (x ∈ kw ∧ (e = .renderContext ∨ e = .defRenderContext))) :
     ∃ l, renderEntry reserved e fresh keys kw = .nameConflict l ∧ l ≠ [] := by
   have key : ∀ ks, x ∈ ks → ∃ l, setWithTemplate reserved ks = .nameConflict l ∧ l ≠ [] := by
@@ -304,11 +304,11 @@ theorem render_entries_reject (reserved keys kw : List Name) (e : Entry) (fresh 
     rfl
   have hkw : Generated.Names.renderContextChecksKwargs = true := by decide
   have hun : Generated.Names.renderContextKwargsCheckUnconditional = true := by decide
-  rcases h with ⟨hk, hf⟩ | ⟨hk, he⟩
+  rcases h with ⟨hk, hne, hf⟩ | ⟨hk, he⟩
   · have k1 := key (keys ++ [captureName, callerName]) (by simp [hk])
     cases e <;> simp only [renderEntry] <;> first
       | exact k1
-      | (simp at hf)
+      | exact absurd rfl hne
       | (rcases hf with hf | hf
          · obtain ⟨l, hl, hne⟩ := k1
            exact ⟨l, by simp [hf, hl], hne⟩
